@@ -42,6 +42,9 @@ def run(tier):
                           f[3] if len(f) == 4 else None, f[2] if len(f) == 4 else None,
                           "header sweep %s ct=%s ver=%#06x (+%s bytes): from declared length %s the crate answers %s, the specification says %s" % (
                               v["fn"], v["ct"], v["ver"], v["extra"], ln, f[2] if len(f) == 4 else "?", f[3] if len(f) == 4 else "?"), "sweep")
+    # (growth) the contract over a whole run: the streaming consumer of Stream.tla, model-checked and bound to the real parsers
+    common.stream_runs(rep, binary, PROP, ["parse_tls_plaintext", "parse_tls_raw_record", "parse_tls_encrypted", "tls_parser"], 7,
+                       thorough=(tier == "thorough"))
     for c in cases[:2] + cases[len(cases) // 2:len(cases) // 2 + 1]:
         rep.sample({"fn": c["fn"], "input": c["input"], "expect": c["expect"], "pin": c["pin"]})
     return rep.finish("model_checking",
